@@ -43,7 +43,7 @@ def check_points(case, m, pts, dyadic, vs, tag):
         for i, v in enumerate(pt):
             t = grid_index(v, lower[i], upper[i], m)
             k = round(t)
-            if abs(t - k) > 1e-6 or not (0 <= k < 2 ** m):
+            if abs(t - k) > grid_tol(lower[i], upper[i], m) or not (0 <= k < 2 ** m):
                 nbad += 1
                 if nbad <= 2:
                     vs.append(oc.violation(PROP, case, "on-grid", {"run": tag, "density": m, "trial": j + 1, "coordinate": i,
@@ -56,6 +56,14 @@ def check_points(case, m, pts, dyadic, vs, tag):
                         vs.append(oc.violation(PROP, case, "on-grid-exact", {"run": tag, "density": m, "trial": j + 1,
                                                                              "coordinate": i, "value": v, "grid_index": str(tt)}))
     return nbad
+
+
+def grid_tol(lo, up, m):
+    """how far (in cells) the computed grid index of an exactly placed point may be from an integer: 1e-6, or - on a thin side far
+    from the origin - the rounding of the coordinate itself (a few ulps of the bound) expressed in cells"""
+    import math
+    big = max(abs(lo), abs(up))
+    return max(1e-6, 8 * math.ulp(big) / (up - lo) * 2 ** m) if big > 0 else 1e-6
 
 
 def check_case(case):
@@ -94,7 +102,7 @@ def check_case(case):
                     on_other += 1
             else:
                 t = grid_index(v, lower[i], upper[i], m)
-                if abs(t - round(t)) <= 1e-6:
+                if abs(t - round(t)) <= grid_tol(lower[i], upper[i], m):
                     on_other += 1
     if on_other or (runs["m"] and runs["m2"] and runs["m"][0] == runs["m2"][0]):
         vs.append(oc.violation(PROP, case, "resolution-changes", {"m": m, "m2": m2, "coordinates_of_m2_run_on_m_grid": on_other,
@@ -115,6 +123,10 @@ def gen(r):
     elif u < 0.5:
         box = ([-1.0] * n, [1.0] * n)
     case = oc.gen_case(r, n=n, m=m, box=box, lim=r.choice([5, 8, 17, 40, 80, 200]))
+    # (a thin box far from the origin resolves only the coarser grids: both densities within what doubles can represent there)
+    cap = oc.common.cap_density(case["lower"], case["upper"], 12)
+    if m2 > cap or case["m"] == min(m2, cap):
+        m2 = next((x for x in range(cap, 1, -1) if x != case["m"]), 2 if case["m"] != 2 else 3)
     case["m2"] = m2
     return case
 
